@@ -54,8 +54,8 @@ PROTO_NOTE = ("Model/Proto.v transcribes every _to_protobuf/_decode_protobuf pai
               "the protobuf wire codec (Parse(Serialize(m)) = m, range checks, presence) is the runtime's and is trusted; enum tables and schema are regenerated from /repo on every run. ")
 
 CHECKS["C03"] = dict(
-    text="Theorems (Props/C03.v, 18) for every reachable state: get_by_uuid ir u = Some n <-> n reachable from ir through containment and uuid n = u; None otherwise; no leakage between IRs; "
-         "the table has one entry per UUID; UUID-table deletions never hit a missing key (the only KeyErrors are the built-in ones); also along schedules with lookups interleaved. "
+    text="Theorems (Props/C03.v, 20) for every reachable state: get_by_uuid ir u = Some n <-> n reachable from ir through containment and uuid n = u; None otherwise; no leakage between IRs; "
+         "the table has one entry per UUID; UUID-table deletions never hit a missing key (the only KeyErrors are the built-in ones); also along schedules with lookups interleaved; route independence (C03_route_independent: any two histories that arrive at the same nodes with the same attributes give every IR the same answer to every UUID, whatever the routes). "
          "Correspondence: random attach/detach/move histories over two IRs on the working tree and the extracted model, get_by_uuid for every pool UUID on every IR after every step; "
          "direct oracle = reachability through public containment attributes; final states saved and loaded twice. Equal UUIDs in DIFFERENT IRs (the premise as the property states it: distinct among the nodes attached to one IR) are covered by a second model, Model/TwinCache.v (per-IR tables; add / discard / ^= of the owning sets on flattened subtrees): C03_per_ir_distinct_uuids_suffice (every history whose states keep per-IR distinctness keeps every table exact and never hits a missing key), C03_ixor_two_pass_exact, C03_ixor_interleaved_refuted (the inherited ^= loses the newcomer when it carries the UUIDs of a member that leaves: defect D20), C03_ixor_interleaved_right_when_uuids_globally_distinct, C03_twin_no_leak, C03_list_assignment_with_twins (leavers first, then enterers: `ir.modules[i] = twin` is exact); request 52 replays histories over two loads of one file (members exchanged for their twins by ^= in both iteration orders, adds, discards) on model and implementation.",
     design="5 C03", technique="Coq proof (invariant CacheInv by induction over operation histories) + differential correspondence + reachability oracle",
@@ -79,8 +79,8 @@ CHECKS["C06"] = dict(
     design="5 C06", technique="Coq proof (Sync invariant + extent characterisation) + differential correspondence + fresh-scan oracle",
     note=WORLD_NOTE)
 CHECKS["C10"] = dict(
-    text="Theorems (Props/C10.v, 5) for every reachable state: symbols_named m s = exactly the symbols of m named s, each once (incl. the empty name); references b = exactly the symbols of b's current "
-         "module whose referent is b, empty without a module. Correspondence: renames, payload switches block/proxy/int incl. 0/None, symbol and block moves; direct oracle = comprehension over module.symbols.",
+    text="Theorems (Props/C10.v, 8) for every reachable state: symbols_named m s = exactly the symbols of m named s, each once (incl. the empty name); references b = exactly the symbols of b's current "
+         "module whose referent is b, empty without a module; route independence (C10_route_independent: two histories -- any two -- arriving at the same nodes, attributes and collection members answer both lookups with the same symbols, each once, although the indexes themselves, lists in insertion order, differ: C10_route_independent_example). Correspondence: renames, payload switches block/proxy/int incl. 0/None, symbol and block moves; direct oracle = comprehension over module.symbols.",
     design="5 C10", technique="Coq proof (index invariant SymIx + FreshIx by induction over histories) + differential correspondence + scan oracle",
     note=WORLD_NOTE)
 CHECKS["C12"] = dict(
